@@ -90,6 +90,88 @@ theorem stopRun_fields (s : St) (e : Bool) :
   · simp [stopRun, stopClear]
 
 
+/-! ### `doVerify`: a stop caused by an error withdraws the request (fix C04-F8), nothing but the verify command sets it -/
+
+theorem stop_doVerify_eq (s : St) (e : Bool) :
+    (s.stop e).doVerify = s.doVerify ∨ (e = true ∧ (s.stop e).doVerify = false) := by
+  rw [stop_eq]
+  split
+  · exact Or.inl rfl
+  · cases e
+    · left; simp [stopRun, stopA]
+    · right; simp [stopRun, stopA]
+
+theorem stop_false_doVerify (s : St) : (s.stop false).doVerify = s.doVerify := by
+  rcases stop_doVerify_eq s false with h | h
+  · exact h
+  · cases h.1
+
+theorem stop_doVerify_false (s : St) (e : Bool) (h : s.doVerify = false) : (s.stop e).doVerify = false := by
+  rcases stop_doVerify_eq s e with h' | h'
+  · rw [h', h]
+  · exact h'.2
+
+theorem pwdFinish_doVerify_false (m : M) (h : m.1.doVerify = false) : (pwdFinish m).1.doVerify = false := by
+  unfold pwdFinish
+  dsimp only
+  repeat' split
+  all_goals first
+    | (simp only [onSt_fst]; apply stop_doVerify_false; simpa using h)
+    | (simpa using h)
+
+theorem handlePieceWriteDone_doVerify_false (m : M) (w : WriteJob) (e : Bool) (h : m.1.doVerify = false) :
+    (handlePieceWriteDone m w e).1.doVerify = false := by
+  rw [handlePieceWriteDone_eq]
+  dsimp only
+  repeat' split
+  all_goals first
+    | (simp only [onSt_fst]; apply stop_doVerify_false; simpa using h)
+    | (unfold pwdOk; apply pwdFinish_doVerify_false; simpa using h)
+    | (simpa using h)
+
+theorem writerRun_doVerify_false (m : M) (w : WriteJob) (h : m.1.doVerify = false) :
+    (writerRun m w).1.doVerify = false := by
+  unfold writerRun
+  dsimp only
+  repeat' split
+  all_goals first
+    | (apply handlePieceWriteDone_doVerify_false; simpa using h)
+    | (simpa using h)
+
+theorem hadCheck_doVerify_false (m : M) (h : m.1.doVerify = false) : (hadCheck m).1.doVerify = false := by
+  unfold hadCheck
+  dsimp only
+  split
+  · simp only [onSt_fst]; apply stop_doVerify_false; simpa using h
+  · simpa using h
+
+theorem hmdStart_doVerify_false (m : M) (h : m.1.doVerify = false) : (hmdStart m).1.doVerify = false := by
+  unfold hmdStart
+  repeat' split
+  all_goals first
+    | (simp only [onSt_fst]; apply stop_doVerify_false; simpa using h)
+    | (simpa using h)
+
+theorem hmdAdopt_doVerify_false (m : M) (h : m.1.doVerify = false) : (hmdAdopt m).1.doVerify = false := by
+  unfold hmdAdopt
+  dsimp only
+  repeat' split
+  all_goals first
+    | (simp only [onSt_fst]; apply stop_doVerify_false; simpa using h)
+    | (apply hmdStart_doVerify_false; simpa using h)
+
+theorem handleMetadataData_doVerify_false (m : M) (k i len : Nat) (g : Bool) (h : m.1.doVerify = false) :
+    (handleMetadataData m k i len g).1.doVerify = false := by
+  rw [handleMetadataData_eq]
+  split
+  · exact h
+  unfold hmdBlock
+  dsimp only
+  repeat' split
+  all_goals first
+    | (apply hmdAdopt_doVerify_false; simpa using h)
+    | (simpa using h)
+
 /-! ### `WrOK` -/
 
 /-- `s` is neither stopped nor stopping. -/
